@@ -472,6 +472,10 @@ def run_channel(ctx):
                     return ([(x, dict(f)["seq"]) for x, f in pj["copies"]], [list(q) for q in pj["ack"]], [q[0] for q in pj["push"]],
                             v.lastid if v.loaded else None)
                 a, b = nums(iv), nums(mv)
+                # lastID is compared only when the topic is loaded on both sides (the fan-out model has no notion of an
+                # unloaded topic: a publish refused with 409 before anybody attached leaves the real topic unloaded)
+                if a[3] is None or b[3] is None:
+                    a, b = a[:3], b[:3]
                 if a != b:
                     mism += 1
                     if not seen:
